@@ -100,6 +100,17 @@ where
     }
 }
 
+/// Events judged by TLC must not mix a sequence and a record under one key (TLC cannot compare
+/// them): a panicking Display is recorded as `str: []` plus `display_panic: true`.
+pub fn for_tlc(o: &Value) -> Value {
+    let mut o = o.clone();
+    if o.get("str").map(|s| s.is_object()).unwrap_or(false) {
+        o["str"] = json!([]);
+        o["display_panic"] = json!(true);
+    }
+    o
+}
+
 /// Everything observable about a qualifier list besides iteration: reverse iteration,
 /// length, and a lookup of every key in lower and upper case.
 pub fn quals_extras(q: &Qualifiers) -> Value {
